@@ -1,8 +1,23 @@
+// h11: correspondence harness for C11 (a role's state and status are the fold of its subtree).
+//
+// Builds role trees through the real workflow package (YAML -> yaml.Unmarshal -> ProcessTemplates,
+// with task, call, aggregator, include and iterator roles), drives leaf.UpdateState /
+// UpdateStatus on them and records, after every update, every node's GetState/GetStatus, the
+// RoleEvents handed to ParentAdapter.SendEvents and what the ParentAdapter's subscribers
+// received.  Interleavings of UpdateState calls are forced deterministically by blocking inside
+// the SendEvents callback (the role code calls it between its own merge and the parent call).
+//
+//	h11 -gen coq/gen/Gen_StateX.v | Gen_StatusX.v     exhaustive tables (see tables.go)
+//	h11 -seed N -n N -out DIR [-shards K] [-replay FILE] [-tier quick|thorough]
 package main
 
 import (
+	"encoding/json"
 	"fmt"
 	"os"
+	"path/filepath"
+	"sort"
+	"strings"
 
 	"github.com/AliceO2Group/Control/common/event"
 	"github.com/AliceO2Group/Control/common/gera"
@@ -10,78 +25,619 @@ import (
 	"github.com/AliceO2Group/Control/core/task"
 	"github.com/AliceO2Group/Control/core/task/sm"
 	"github.com/AliceO2Group/Control/core/workflow"
+	"github.com/sirupsen/logrus"
 	"github.com/spf13/viper"
+
+	"verif/harness/internal/gen"
 )
 
-const doc = `
-name: root
-roles:
-  - name: a
-    roles:
-      - name: t1
-        task: {load: x, critical: false}
-      - name: c1
-        call: {func: "testplugin.Noop()", trigger: CONFIGURE, critical: false}
-  - name: "it{{ it }}"
-    for: {begin: 0, end: 2, var: it}
-    task: {load: y}
-  - name: inc
-    include: sub1
-  - name: "ag{{ j }}"
-    for: {range: '["p","q"]', var: j}
-    roles:
-      - name: "z"
-        task: {load: y}
-`
-const sub1 = `
-name: sub1
-roles:
-  - name: s1
-    task: {load: z}
-  - name: s2
-    call: {func: "x.Y()", trigger: START, critical: true}
-`
+// ---------------------------------------------------------------- inputs
 
-func dump(r workflow.Role, ind string) {
-	fmt.Printf("%s%s [%s] crit=%v st=%s stat=%s\n", ind, r.GetPath(), workflow.VerifC11Kind(r), r.IsCritical(), r.GetState(), r.GetStatus())
-	for _, c := range r.GetRoles() {
-		dump(c, ind+"  ")
+// nodeIn describes a role of the workflow template. K: "t" task, "c" call, "a" aggregator,
+// "i" include (children = roles of the included workflow), "r" iterator (Ch[0] is the template
+// role, N the number of expansions).
+type nodeIn struct {
+	K    string   `json:"k"`
+	Name string   `json:"name"`
+	Crit bool     `json:"crit,omitempty"`
+	N    int      `json:"n,omitempty"`
+	Ch   []nodeIn `json:"ch,omitempty"`
+}
+
+// opIn: one UpdateState (S=true) / UpdateStatus call on the leaf with role path Leaf.
+type opIn struct {
+	Leaf string `json:"leaf"`
+	S    bool   `json:"state"`
+	V    int    `json:"v"`
+}
+
+type presetIn struct {
+	Path string `json:"path"`
+	St   int    `json:"st"`
+	Stat int    `json:"stat"`
+}
+
+type input struct {
+	Tree   nodeIn     `json:"tree"`
+	Mode   int        `json:"mode,omitempty"`   // seq: 0 loaded, 1 leaves preset + recompute, 2 all preset
+	Preset []presetIn `json:"preset,omitempty"` // seq modes 1,2
+	Ops    []opIn     `json:"ops,omitempty"`
+	Ops2   []opIn     `json:"ops2,omitempty"`  // comm: second order
+	Tree2  *nodeIn    `json:"tree2,omitempty"` // perm: same roles, children permuted
+	Sched  []int      `json:"sched,omitempty"` // conc: token index per segment (Ops are the tokens)
+}
+
+// ---------------------------------------------------------------- YAML
+
+type yamlOut struct {
+	main string
+	subs map[string][]byte
+}
+
+func yq(s string) string { b, _ := json.Marshal(s); return string(b) }
+
+func emitRole(b *strings.Builder, n nodeIn, ind string, subs map[string][]byte) {
+	first := ind + "- "
+	rest := ind + "  "
+	switch n.K {
+	case "t":
+		fmt.Fprintf(b, "%sname: %s\n", first, yq(n.Name))
+		fmt.Fprintf(b, "%stask:\n%s  load: cls\n%s  critical: %v\n", rest, rest, rest, n.Crit)
+	case "c":
+		fmt.Fprintf(b, "%sname: %s\n", first, yq(n.Name))
+		fmt.Fprintf(b, "%scall:\n%s  func: verif.Noop()\n%s  trigger: CONFIGURE\n%s  critical: %v\n", rest, rest, rest, rest, n.Crit)
+	case "a":
+		fmt.Fprintf(b, "%sname: %s\n", first, yq(n.Name))
+		fmt.Fprintf(b, "%sroles:\n", rest)
+		for _, c := range n.Ch {
+			emitRole(b, c, rest+"  ", subs)
+		}
+	case "i":
+		sub := "sub-" + n.Name
+		fmt.Fprintf(b, "%sname: %s\n", first, yq(n.Name))
+		fmt.Fprintf(b, "%sinclude: %s\n", rest, sub)
+		var sb strings.Builder
+		fmt.Fprintf(&sb, "name: %s\nroles:\n", yq(sub))
+		for _, c := range n.Ch {
+			emitRole(&sb, c, "  ", subs)
+		}
+		subs[sub] = []byte(sb.String())
+	case "r":
+		// the iterator takes the shape of its template role; the name carries the variable
+		t := n.Ch[0]
+		v := "it_" + strings.ReplaceAll(n.Name, "-", "_")
+		t2 := t
+		t2.Name = t.Name + "-{{ " + v + " }}"
+		var tb strings.Builder
+		emitRole(&tb, t2, ind, subs)
+		s := tb.String()
+		// insert the for block after the name line
+		nl := strings.Index(s, "\n")
+		forBlock := fmt.Sprintf("%sfor:\n%s  begin: 0\n%s  end: %d\n%s  var: %s\n", rest, rest, rest, n.N-1, rest, v)
+		b.WriteString(s[:nl+1] + forBlock + s[nl+1:])
 	}
 }
+
+func toYAML(root nodeIn) yamlOut {
+	subs := map[string][]byte{}
+	var b strings.Builder
+	fmt.Fprintf(&b, "name: %s\nroles:\n", yq(root.Name))
+	for _, c := range root.Ch {
+		emitRole(&b, c, "  ", subs)
+	}
+	return yamlOut{b.String(), subs}
+}
+
+// ---------------------------------------------------------------- running tree
+
+type recorder struct {
+	events  [][2]string // (role path, "S:<state>" | "X:<status>")
+	onEvent func()
+}
+
+type live struct {
+	root    workflow.Role
+	rec     *recorder
+	stCh    chan sm.State
+	statCh  chan task.Status
+	byPath  map[string]workflow.Role
+	idxPath map[string][]int // role path -> child indices in the flattened tree
+	leaves  []string         // role paths of leaves, in tree order
+	aggs    []string         // role paths of aggregators, bottom-up order
+}
+
+func load(in nodeIn) (*live, error) {
+	y := toYAML(in)
+	l := &live{rec: &recorder{}, byPath: map[string]workflow.Role{}, idxPath: map[string][]int{}}
+	m := gera.MakeMap[string, string]()
+	pa := workflow.NewParentAdapter(func() uid.ID { return uid.NilID() }, func() uint32 { return 0 },
+		func() gera.Map[string, string] { return m }, func() gera.Map[string, string] { return m },
+		func() gera.Map[string, string] { return m },
+		func(e event.Event) {
+			if re, ok := e.(*event.RoleEvent); ok {
+				v := "S:" + re.State
+				if re.State == "" {
+					v = "X:" + re.Status
+				}
+				l.rec.events = append(l.rec.events, [2]string{re.RolePath, v})
+			}
+			if l.rec.onEvent != nil {
+				l.rec.onEvent()
+			}
+		})
+	l.stCh = make(chan sm.State, 4096)
+	l.statCh = make(chan task.Status, 4096)
+	pa.SubscribeToStateChange("h11", l.stCh)
+	pa.SubscribeToStatusChange("h11", l.statCh)
+	root, err := workflow.VerifC11Load([]byte(y.main), y.subs, pa)
+	if err != nil {
+		return nil, fmt.Errorf("%v\n%s", err, y.main)
+	}
+	l.root = root
+	var walk func(r workflow.Role, idx []int)
+	walk = func(r workflow.Role, idx []int) {
+		p := r.GetPath()
+		if _, dup := l.byPath[p]; dup {
+			panic("duplicate role path " + p)
+		}
+		l.byPath[p] = r
+		l.idxPath[p] = append([]int{}, idx...)
+		switch workflow.VerifC11Kind(r) {
+		case "task", "call":
+			l.leaves = append(l.leaves, p)
+		default:
+			for i, c := range r.GetRoles() {
+				walk(c, append(append([]int{}, idx...), i))
+			}
+			l.aggs = append(l.aggs, p)
+		}
+	}
+	walk(root, nil)
+	return l, nil
+}
+
+// snapshot prints the flattened tree with every node's reported state and status as a Coq term.
+func snapshot(r workflow.Role) string {
+	st, stat := int(r.GetState()), int(r.GetStatus())
+	if st < 0 || st >= len(stateNames) || stat < 0 || stat >= len(statusNames) {
+		panic(fmt.Sprintf("value outside the modelled domains: state %d status %d", st, stat))
+	}
+	switch workflow.VerifC11Kind(r) {
+	case "task", "call":
+		return fmt.Sprintf("Leaf %s %s %s", gen.Bool(r.IsCritical()), stateNames[st], statusNames[stat])
+	default:
+		var cs []string
+		for _, c := range r.GetRoles() {
+			cs = append(cs, snapshot(c))
+		}
+		return fmt.Sprintf("Agg %s %s %s", stateNames[st], statusNames[stat], gen.List(paren(cs)))
+	}
+}
+
+func paren(xs []string) []string {
+	out := make([]string, len(xs))
+	for i, x := range xs {
+		out[i] = "(" + x + ")"
+	}
+	return out
+}
+
+type jsnap struct {
+	Path string `json:"p"`
+	St   string `json:"st"`
+	Stat string `json:"stat"`
+}
+
+func (l *live) jsonSnap() []jsnap {
+	var out []jsnap
+	paths := make([]string, 0, len(l.byPath))
+	for p := range l.byPath {
+		paths = append(paths, p)
+	}
+	sort.Strings(paths)
+	for _, p := range paths {
+		r := l.byPath[p]
+		out = append(out, jsnap{p, stateNames[int(r.GetState())], statusNames[int(r.GetStatus())]})
+	}
+	return out
+}
+
+func natList(xs []int) string {
+	if len(xs) == 0 {
+		return "[]"
+	}
+	items := make([]string, len(xs))
+	for i, x := range xs {
+		items[i] = fmt.Sprintf("%d", x)
+	}
+	return "[" + strings.Join(items, "; ") + "]%nat"
+}
+
+func indexOf(names []string, s string) int {
+	for i, n := range names {
+		if n == s {
+			return i
+		}
+	}
+	return -1
+}
+
+func (l *live) drainAdapter() (sts []int, stats []int) {
+	for {
+		select {
+		case s := <-l.stCh:
+			sts = append(sts, int(s))
+			continue
+		case s := <-l.statCh:
+			stats = append(stats, int(s))
+			continue
+		default:
+		}
+		return
+	}
+}
+
+func (l *live) takeEvents() string {
+	var items []string
+	for _, e := range l.rec.events {
+		idx, ok := l.idxPath[e[0]]
+		if !ok {
+			panic("event for unknown role path " + e[0])
+		}
+		var code int
+		if strings.HasPrefix(e[1], "S:") {
+			code = indexOf(stateNames, e[1][2:])
+		} else {
+			code = indexOf(statusNames, e[1][2:])
+		}
+		if code < 0 {
+			panic("event with unknown value " + e[1])
+		}
+		items = append(items, gen.Pair(natList(idx), gen.N(uint64(code))))
+	}
+	l.rec.events = nil
+	return gen.List(items)
+}
+
+func opTerm(l *live, o opIn) string {
+	idx, ok := l.idxPath[o.Leaf]
+	if !ok {
+		panic("op on unknown leaf " + o.Leaf)
+	}
+	if o.S {
+		return fmt.Sprintf("OpState %s %s", natList(idx), stateNames[o.V])
+	}
+	return fmt.Sprintf("OpStatus %s %s", natList(idx), statusNames[o.V])
+}
+
+func (l *live) apply(o opIn) {
+	pu := l.byPath[o.Leaf].(workflow.PublicUpdatable)
+	if o.S {
+		pu.UpdateState(sm.State(o.V))
+	} else {
+		pu.UpdateStatus(task.Status(o.V))
+	}
+}
+
+func nList(xs []int) string {
+	items := make([]string, len(xs))
+	for i, x := range xs {
+		items[i] = gen.N(uint64(x))
+	}
+	return gen.List(items)
+}
+
+// ---------------------------------------------------------------- cases
+
+func caseSeq(in input) gen.Case {
+	l, err := load(in.Tree)
+	if err != nil {
+		panic(err)
+	}
+	switch in.Mode {
+	case 1:
+		for _, p := range in.Preset {
+			if r, ok := l.byPath[p.Path]; ok {
+				workflow.VerifC11SetCached(r, sm.State(p.St), task.Status(p.Stat))
+			}
+		}
+		for _, p := range l.aggs { // bottom-up
+			workflow.VerifC11Recompute(l.byPath[p])
+		}
+	case 2:
+		for _, p := range in.Preset {
+			if r, ok := l.byPath[p.Path]; ok {
+				workflow.VerifC11SetCached(r, sm.State(p.St), task.Status(p.Stat))
+			}
+		}
+	}
+	t0 := snapshot(l.root)
+	var ops, obs []string
+	var jobs []interface{}
+	for _, o := range in.Ops {
+		ops = append(ops, opTerm(l, o))
+		l.apply(o)
+		sts, stats := l.drainAdapter()
+		ad := sts
+		if !o.S {
+			ad = stats
+		}
+		if (o.S && len(stats) > 0) || (!o.S && len(sts) > 0) {
+			ad = append(ad, 777) // the other channel must stay silent
+		}
+		obs = append(obs, fmt.Sprintf("mkObs (%s) %s %s", snapshot(l.root), l.takeEvents(), nList(ad)))
+		jobs = append(jobs, map[string]interface{}{"root_state": stateNames[int(l.root.GetState())],
+			"root_status": statusNames[int(l.root.GetStatus())], "adapter": ad})
+	}
+	term := fmt.Sprintf("CSeq %d (%s) %s %s", in.Mode, t0, gen.List(paren(ops)), gen.List(paren(obs)))
+	kind := []string{"seq-loaded", "seq-consistent-preset", "seq-arbitrary-preset"}[in.Mode]
+	return gen.Case{Term: term, Kind: kind, Input: in, Obs: map[string]interface{}{"steps": jobs, "final": l.jsonSnap()}}
+}
+
+func runAll(in nodeIn, ops []opIn) (*live, string, string, string) {
+	l, err := load(in)
+	if err != nil {
+		panic(err)
+	}
+	t0 := snapshot(l.root)
+	var terms []string
+	for _, o := range ops {
+		terms = append(terms, opTerm(l, o))
+		l.apply(o)
+	}
+	return l, t0, gen.List(paren(terms)), snapshot(l.root)
+}
+
+func caseComm(in input) gen.Case {
+	l1, t0, ops1, f1 := runAll(in.Tree, in.Ops)
+	l2, _, ops2, f2 := runAll(in.Tree, in.Ops2)
+	term := fmt.Sprintf("CComm (%s) %s (%s) %s (%s)", t0, ops1, f1, ops2, f2)
+	return gen.Case{Term: term, Kind: "comm", Input: in,
+		Obs: map[string]interface{}{"final1": l1.jsonSnap(), "final2": l2.jsonSnap()}}
+}
+
+// permTerm: the ptree that maps the children lists of a onto those of b (matched by role name).
+func permTerm(a, b workflow.Role) string {
+	switch workflow.VerifC11Kind(a) {
+	case "task", "call":
+		return "P [] []"
+	}
+	ca, cb := a.GetRoles(), b.GetRoles()
+	if len(ca) != len(cb) {
+		panic("permuted tree has a different number of children")
+	}
+	pos := map[string]int{}
+	for i, c := range ca {
+		pos[c.GetName()] = i
+	}
+	perm := make([]int, len(cb))
+	subs := make([]string, len(ca))
+	for k, c := range cb {
+		i, ok := pos[c.GetName()]
+		if !ok {
+			panic("permuted tree has an unknown child " + c.GetName())
+		}
+		perm[k] = i
+		subs[i] = "(" + permTerm(ca[i], c) + ")"
+	}
+	return fmt.Sprintf("P %s %s", natList(perm), gen.List(subs))
+}
+
+func casePerm(in input) gen.Case {
+	l1, t0, ops1, f1 := runAll(in.Tree, in.Ops)
+	// the permutation is read off freshly loaded trees
+	la, err := load(in.Tree)
+	if err != nil {
+		panic(err)
+	}
+	lb, err := load(*in.Tree2)
+	if err != nil {
+		panic(err)
+	}
+	pt := permTerm(la.root, lb.root)
+	l2, t0b, ops2, f2 := runAll(*in.Tree2, in.Ops)
+	term := fmt.Sprintf("CPerm (%s) %s (%s) (%s) (%s) %s (%s)", t0, ops1, f1, pt, t0b, ops2, f2)
+	return gen.Case{Term: term, Kind: "perm", Input: in,
+		Obs: map[string]interface{}{"final": l1.jsonSnap(), "final_permuted": l2.jsonSnap()}}
+}
+
+// caseConc: the Ops (all UpdateState) are the tokens; Sched lists, per segment, the token that
+// runs until its next SendEvents call (or to the end of UpdateState).
+func caseConc(in input) gen.Case {
+	l, err := load(in.Tree)
+	if err != nil {
+		panic(err)
+	}
+	t0 := snapshot(l.root)
+	n := len(in.Ops)
+	type tok struct {
+		start, resume chan struct{}
+		started, done bool
+		segs          int
+		crit          bool
+	}
+	toks := make([]*tok, n)
+	arrived := make(chan struct{})
+	finished := make(chan struct{})
+	current := -1
+	for i := range toks {
+		toks[i] = &tok{start: make(chan struct{}), resume: make(chan struct{}),
+			crit: l.byPath[in.Ops[i].Leaf].IsCritical()}
+	}
+	l.rec.onEvent = func() {
+		me := current
+		arrived <- struct{}{}
+		<-toks[me].resume
+	}
+	for i := range toks {
+		go func(i int) {
+			<-toks[i].start
+			l.apply(in.Ops[i])
+			finished <- struct{}{}
+		}(i)
+	}
+	var segs []string
+	var jsegs []interface{}
+	runSeg := func(i int) {
+		t := toks[i]
+		var steps []int
+		if t.done {
+			// nothing runs; recorded as an empty segment
+		} else {
+			current = i
+			if !t.started {
+				t.started = true
+				t.start <- struct{}{}
+			} else {
+				t.resume <- struct{}{}
+			}
+			select {
+			case <-arrived:
+			case <-finished:
+				t.done = true
+			}
+			// model steps this segment stands for
+			switch {
+			case t.segs == 0:
+				steps = []int{i}
+			case !t.crit:
+				steps = nil
+			case t.segs == 1:
+				steps = []int{i}
+			default:
+				steps = []int{i, i}
+			}
+			t.segs++
+		}
+		segs = append(segs, gen.Pair(natList(steps), "("+snapshot(l.root)+")"))
+		jsegs = append(jsegs, map[string]interface{}{"token": i, "root": stateNames[int(l.root.GetState())]})
+	}
+	sched := append([]int{}, in.Sched...)
+	for _, i := range sched {
+		if i >= 0 && i < n {
+			runSeg(i)
+		}
+	}
+	// run everything that is left to the end, in token order
+	for i := 0; i < n; i++ {
+		for !toks[i].done {
+			runSeg(i)
+		}
+	}
+	l.rec.onEvent = nil
+	sts, stats := l.drainAdapter()
+	if len(stats) > 0 {
+		sts = append(sts, 777)
+	}
+	var ups []string
+	for _, o := range in.Ops {
+		ups = append(ups, gen.Pair(natList(l.idxPath[o.Leaf]), stateNames[o.V]))
+	}
+	term := fmt.Sprintf("CConc (%s) %s %s (%s) %s", t0, gen.List(ups), gen.List(segs), snapshot(l.root), nList(sts))
+	return gen.Case{Term: term, Kind: "conc", Input: in,
+		Obs: map[string]interface{}{"segments": jsegs, "final": l.jsonSnap(), "adapter": sts}}
+}
+
+func runCase(kind string, in input) gen.Case {
+	switch kind {
+	case "comm":
+		return caseComm(in)
+	case "perm":
+		return casePerm(in)
+	case "conc":
+		return caseConc(in)
+	default:
+		return caseSeq(in)
+	}
+}
+
+// ---------------------------------------------------------------- corpus (runs first)
+
+func corpus() []struct {
+	kind string
+	in   input
+} {
+	// C11-a: the Coq witness wit_a_tree / wit_a_ops
+	ta := nodeIn{K: "a", Name: "root", Ch: []nodeIn{
+		{K: "a", Name: "a1", Ch: []nodeIn{{K: "t", Name: "t1", Crit: false}}},
+		{K: "t", Name: "t2", Crit: true}}}
+	// C11-b: the Coq witness wit_b_tree / wit_b_ups / wit_b_sched
+	tb := nodeIn{K: "a", Name: "root", Ch: []nodeIn{
+		{K: "a", Name: "a1", Ch: []nodeIn{{K: "t", Name: "t1", Crit: true}, {K: "t", Name: "t2", Crit: true}}},
+		{K: "t", Name: "t3", Crit: true}}}
+	// C11-c: an aggregator whose iterator expands to nothing, next to a task that becomes ACTIVE
+	tc := nodeIn{K: "a", Name: "root", Ch: []nodeIn{
+		{K: "a", Name: "a1", Ch: []nodeIn{{K: "r", Name: "r1", N: 0, Ch: []nodeIn{{K: "t", Name: "t1", Crit: true}}}}},
+		{K: "t", Name: "t2", Crit: true}}}
+	return []struct {
+		kind string
+		in   input
+	}{
+		{"seq", input{Tree: ta, Ops: []opIn{{Leaf: "root.t2", S: true, V: int(sm.CONFIGURED)}}}},
+		{"seq", input{Tree: ta, Ops: []opIn{{Leaf: "root.a1.t1", S: true, V: int(sm.CONFIGURED)}, {Leaf: "root.t2", S: true, V: int(sm.CONFIGURED)}}}},
+		{"conc", input{Tree: tb, Ops: []opIn{{Leaf: "root.a1.t1", S: true, V: int(sm.ERROR)}, {Leaf: "root.a1.t1", S: true, V: int(sm.STANDBY)}},
+			Sched: []int{0, 1, 1, 1, 1, 0, 0, 0}}},
+		{"seq", input{Tree: tc, Ops: []opIn{{Leaf: "root.t2", S: false, V: int(task.ACTIVE)}}}},
+	}
+}
+
+// ---------------------------------------------------------------- main
 
 func main() {
 	if len(os.Args) == 3 && os.Args[1] == "-gen" {
 		genMode(os.Args[2])
 		return
 	}
+	o := gen.ParseFlags()
 	viper.Set("config_endpoint", "mock://")
-	m := gera.MakeMap[string, string]()
-	var evs []string
-	pa := workflow.NewParentAdapter(func() uid.ID { return uid.NilID() }, func() uint32 { return 0 },
-		func() gera.Map[string, string] { return m }, func() gera.Map[string, string] { return m }, func() gera.Map[string, string] { return m },
-		func(e event.Event) {
-			if re, ok := e.(*event.RoleEvent); ok {
-				evs = append(evs, re.RolePath+":"+re.State+"/"+re.Status)
+	viper.Set("enableKafka", false)
+	logrus.SetLevel(logrus.PanicLevel)
+	logrus.SetOutput(os.Stderr)
+
+	var cases []gen.Case
+	if o.Replay != "" {
+		ins, kinds, err := gen.LoadReplay(o.Replay)
+		if err != nil {
+			panic(err)
+		}
+		for i, raw := range ins {
+			var in input
+			if err := json.Unmarshal(raw, &in); err != nil {
+				panic(err)
 			}
-		})
-	stCh := make(chan sm.State, 100)
-	pa.SubscribeToStateChange("h", stCh)
-	root, err := workflow.VerifC11Load([]byte(doc), map[string][]byte{"sub1": []byte(sub1)}, pa)
-	if err != nil {
+			k := kinds[i]
+			if strings.HasPrefix(k, "seq") {
+				k = "seq"
+			}
+			cases = append(cases, runCase(k, in))
+		}
+	} else {
+		for _, c := range corpus() {
+			cases = append(cases, runCase(c.kind, c.in))
+		}
+		// optional extra corpus files (replay format)
+		files, _ := filepath.Glob("corpus/C11/*.json")
+		sort.Strings(files)
+		for _, f := range files {
+			ins, kinds, err := gen.LoadReplay(f)
+			if err != nil {
+				continue
+			}
+			for i, raw := range ins {
+				var in input
+				if json.Unmarshal(raw, &in) == nil {
+					k := kinds[i]
+					if strings.HasPrefix(k, "seq") {
+						k = "seq"
+					}
+					cases = append(cases, runCase(k, in))
+				}
+			}
+		}
+		cases = append(cases, generate(o)...)
+	}
+	extra := map[string]any{"note": "cases 0-3 are the corpus: C11-a witness (twice), C11-b witness schedule, C11-c witness"}
+	if err := gen.WriteCases(o, "C11", "From Verif Require Import RoleTree.", "c11_case", "report11", cases, extra); err != nil {
 		panic(err)
 	}
-	dump(root, "")
-	var leaves []workflow.Role
-	workflow.LeafWalk(root, func(r workflow.Role) { leaves = append(leaves, r) })
-	for _, l := range leaves {
-		l.(workflow.PublicUpdatable).UpdateState(sm.CONFIGURED)
-		l.(workflow.PublicUpdatable).UpdateStatus(task.ACTIVE)
-	}
-	dump(root, "")
-	fmt.Println(evs)
-	close(stCh)
-	for s := range stCh {
-		fmt.Print(s, " ")
-	}
-	fmt.Println()
 }
